@@ -94,6 +94,7 @@ class TlcResult:
         self.wall = 0.0
         self.coverage = {}
         self.behaviours_path = None
+        self.cex = []               # behaviours (JSON text) printed by a violated X-property
         self.n_emitted = 0
         self.rc = 0
 
@@ -183,6 +184,11 @@ def run_tlc(module, cfg_path, workdir, workers=NPROC, simulate=None, depth=None,
                             m = re.match(r'^<<"B", "(.*)">>$', line.rstrip("\n"))
                             if m:
                                 emit_f.write(json.loads('"' + m.group(1) + '"') + "\n")
+                        continue
+                    if line.startswith('<<"X", '):
+                        m = re.match(r'^<<"X", "(.*)">>$', line.rstrip("\n"))
+                        if m and len(res.cex) < 20:
+                            res.cex.append(json.loads('"' + m.group(1) + '"'))
                         continue
                     out.write(line)
                     if time.time() > deadline:
@@ -276,9 +282,9 @@ def dedup_prefixes(src, dst, keep=None, sample=None, rnd=None):
     return n_in, len(maximal), len(out)
 
 
-def replay(beh_path, mode="inline", nproc=NPROC, base_seed=None, fs=True, timeout=3600, chunk=400):
+def replay(beh_path, mode="inline", nproc=NPROC, base_seed=None, fs=True, timeout=3600, chunk=400, exe_name="session"):
     """Replays the behaviours of a file through `session` workers. Returns the list of result dicts."""
-    exe = build("session")
+    exe = build(exe_name)
     n = sum(1 for _ in open(beh_path))
     if n == 0:
         return []
@@ -432,8 +438,8 @@ class Check:
                 first = f.readline().strip()
             if first:
                 steps = json.loads(first)
-                self.samples.append({"stage": name, "behaviour": [{"op": s["op"], "a": s["a"], "res": s["pres"],
-                                                                    "reads": sorted([o["t"], o["k"], o["p"]] for o in s["obs"])} for s in steps]})
+                self.samples.append({"stage": name, "behaviour": [{"op": s["op"], "a": s["a"], "res": s.get("pres", "ok"),
+                                                                    "reads": sorted([o.get("t", o.get("i")), o["k"], o["p"]] for o in s["obs"])} for s in steps]})
 
     def finish(self):
         wall = time.time() - self.t0
